@@ -111,9 +111,12 @@ META = {
                     '_select_filter_eq_model for filters without an id comparison below NOT; list(select) / '
                     'SQLObject._SO_fetchAlternateID are interface); InheritableIteration.next and fetchChildren ARE '
                     'translated; fetchChildren is run against a world with the TWO cursors explicit (Model/InhIterX.lean) on '
-                    'closed witnesses (rows pending on the own cursor survive the prefetch) and its grouping / storing loops '
-                    'are proved for every batch (Lemmas/InhIterX.lean), but the whole iteration is not yet proved equal to the '
-                    'hand model (one get per selected id) for all inputs',
+                    'closed witnesses and PROVED for every batch (C15_translated_fetchChildren_eq_model: one query per '
+                    'childName group on the second cursor, rows stored by id, the own cursor and the batch untouched); one step '
+                    'of next inside a batch is proved (C15_translated_next_batch_step); the batch-fetching / StopIteration '
+                    'steps, the drain theorem over all batches and the tie to get(selectResults, childResults) are NOT proved: '
+                    'the iteration as a whole stays tied to the hand model (one get per selected id) by the differential '
+                    'correspondence',
                     'translated InheritableSelectResults.__init__ (C15_translated_selectInit_*): interface in the header of '
                     'Model/InhSelX.lean (tablesUsedSet = the tables of the clause, allClasses() = every class once in any order, '
                     'distinct classes have distinct table names, SelectResults.__init__ selects FROM the tables of the clause '
